@@ -422,6 +422,13 @@ func c09(c *Ctx) {
 			}
 		}
 		spelling := []string{cd, cd + "/", filepath.Join(base, "the") + "//cache", filepath.Join(base, "the", ".", "cache", "sub", ".."), "./the/cache", "the/cache/"}[r.Intn(6)]
+		linked := i%3 == 1 || r.Chance(1, 4)
+		if linked {
+			// the cache directory is reached through a symbolic link (a dotfile-managed ~/.magefile): its entries are
+			// cleaned, the link itself stays
+			os.Symlink(cd, filepath.Join(base, "cachelink"))
+			spelling = []string{filepath.Join(base, "cachelink"), "cachelink", "./cachelink/"}[r.Intn(3)]
+		}
 		before := snapshot(base)
 		runEnv := append([]string{}, env...)
 		for k, e := range runEnv {
@@ -459,7 +466,7 @@ func c09(c *Ctx) {
 			bs = strings.Join(below, ",")
 		}
 		sort.Slice(entries, func(a, b int) bool { return entries[a]["name"].(string) < entries[b]["name"].(string) })
-		c.Emit(J{"op": "c09.clean", "entries": entries}, J{"left": left, "ok": rr.status == 0, "below": bs}, "class=clean", fmt.Sprintf("entries=%d", len(entries)))
+		c.Emit(J{"op": "c09.clean", "entries": entries}, J{"left": left, "ok": rr.status == 0, "below": bs}, "class=clean", fmt.Sprintf("entries=%d", len(entries)), fmt.Sprintf("through-symlink=%v", linked))
 		os.RemoveAll(base)
 	}
 	os.RemoveAll(root)
